@@ -1,6 +1,7 @@
 package props
 
 import (
+	"crypto/x509"
 	"fmt"
 	"math/big"
 	mrand "math/rand"
@@ -269,6 +270,19 @@ func c05(x *mon.Ctx) {
 		w.CrlHdr = map[string][]string{world.HdrPckCrl: {world.IssuerChain(other.Inter, other.Root)}}
 		add(w, "pck-crl-and-issuer-chain-from-lookalike-pki", "both-crls-lookalike", "reject", on)
 	}
+	// ---- every RFC 5280 reason code (and an entry with an invalidity date): a listed serial is revoked whatever the entry says
+	for tname, serial := range cw.targets {
+		for _, rc := range []int{0, 1, 2, 3, 4, 5, 6, 8, 9, 10} {
+			w := base.Clone()
+			es := []x509.RevocationListEntry{{SerialNumber: big.NewInt(5), RevocationTime: this}, {SerialNumber: serial, RevocationTime: this, ReasonCode: rc}, {SerialNumber: big.NewInt(6), RevocationTime: this, ReasonCode: 8}}
+			if tname == "leaf" {
+				w.PckCRL = world.MkCRLEntries(base.PKI.Inter, this, next, es)
+			} else {
+				w.RootCRL = world.MkCRLEntries(base.PKI.Root, this, next, es)
+			}
+			add(w, "revoked-with-reason-code", fmt.Sprintf("%s/%d", tname, rc), "reject", on)
+		}
+	}
 	// ---- CA key roll-over: a second "Intel SGX PCK Platform CA" certificate with another key, genuinely issued by the trusted
 	//      root. Its CRL, served with its own (valid) issuer chain, says nothing about certificates issued under the first key.
 	{
@@ -468,6 +482,7 @@ func c05(x *mon.Ctx) {
 	x.Require("pck-crl-and-issuer-chain-from-lookalike-pki", 0, 3, 3)
 	x.Require("root-crl-signed-by", 0, 6, 6)
 	x.Require("pck-crl-of-rolled-over-ca-key", 0, 6, 6)
+	x.Require("revoked-with-reason-code", 0, 40, 40)
 	x.Require("crl-with-other-authority-key-id/revoked", 0, 4, 4)
 	x.Require("crl-with-other-authority-key-id/not-revoked", 4, 0, 4)
 	x.Require("pck-crl-endpoint", 0, 10, 10)
